@@ -32,7 +32,7 @@ struct XMinify : Engine {
     void worker_init() override { gm.create(1 << 16); build_trees(); }
     void build_trees() { if (!trees.empty()) return; TreeAlphabet al; al.leaves = { RV::mk(RV::Null), RV::mk(RV::True), RV::number(1), RV::number(-2.5e-3), RV::string("s") }; al.keys = { "k" }; al.dup_keys = true; al.max_arity = 3; al.max_depth = 3; trees = enumerate_trees(al, 4); }
     std::vector<std::string> stages() override {
-        if (!cfg.opt.count("hang_s")) cfg.opt["hang_s"] = "4";   // a Minify call takes microseconds: 4 s without progress is a hang
+        if (!cfg.opt.count("hang_s")) cfg.opt["hang_s"] = "8";   // a Minify call takes microseconds: 8 s without progress is a hang (re-checked alone by vcheck before it is reported)
         std::vector<std::string> st; long k = cfg.optl("bytes", cfg.thorough() ? 7 : 6);
         for (long i = 0; i <= k; i++) st.push_back("bytes" + std::to_string(i));
         st.push_back("uniform"); st.push_back("single"); st.push_back("allgaps"); if (cfg.thorough()) st.push_back("pairs");
